@@ -16,6 +16,14 @@ every cache state with reads, mutators, attribute assignments and refused operat
 orders (_run_protocol); assignments through the public attribute names and operations the clean code refuses also inside the
 ordinary histories; f(A); f(B); f(A) with B another draw of another shape at non-default options; fractions and thresholds at
 the edges of their admissible range; silent and strictly one-signed records in every container.
+Round 5 (checklist items 28-33): every numeric argument (dt, start, end, threshold) and the object's dt in its scalar forms -
+np.float32, np.int64, np.bool_, Python int, MUTABLE 0-d arrays and one-entry arrays (snapshotted at call entry like records,
+one object reused by all calls of a case, compared afterwards: purity.scalar-argument-unchanged) -, the se flag as True /
+np.True_ / 0-d bool array / 1; bool-dtype records (arrays, views, lists of Python bools; 1-4 samples as well); user-given
+settings outside the band of the data left alone by the duration functions (purity.settings-unchanged); a custom measure that
+hands out a table held by the caller (purity.measure-output-unchanged). Item 30: the functions have no sentinels beyond
+start = 0 / end = 1 (already judged); item 32: results are immutable scalars / tuples of scalars; item 33: the oracle has ONE
+convention (open band on exact cumulative values), its band is a rounding band that is zero where the arithmetic is exact.
 """
 import itertools
 import traceback
@@ -79,7 +87,17 @@ RULE = ('a case = (record, dt, 3-5 fraction pairs incl. a nested pair and someti
         '1e-12..1e-3, end 1-1e-12..1-2**-53, bands 1e-6 / 0.1 % wide, bounds within 1e-9..1e-3 relative of the normalised '
         'cumulative squares of two samples); 35 % get thresholds one ulp below some |a_i|, within 1e-12..1e-3 of it, and '
         '5e-324 / 1e-300 / the smallest normal. Container cases: 12 % silent (all-zero) and 18 % strictly one-signed records in '
-        'each of the 14 containers. distinct = digest of the '
+        'each of the 14 containers. Round 5 (items 28-33): 40 % of the cases (and every third enumerated sequence) pass start / '
+        'end / threshold as 0-d arrays, one-entry arrays, np.float32 (float32-representable values), np.int64 / int / np.bool_ '
+        '(0 and 1, integer thresholds) and se as np.bool_, 0-d bool array, int - the same array object for the same value in '
+        'every call of the case; dt as 0-d float / int array, np.float32 (then the rounded number is the caller\'s step), '
+        'np.int64, np.True_ (never for float32 records). Containers bool / list of Python bools (pulses of random widths, '
+        'thresholded noise, all-True, silent; n also 1..4; plain, strided, reversed, read-only) and 0/1 sequences of the '
+        'enumerated block as dtype bool. 20 % of generic / shape / history / edge / tie cases construct the object with '
+        'response_times (0, 0.5 dt, 1.9 dt, 2 dt, ordinary) and smooth_fa_freqs (1e-3 .. 4 x Nyquist) of 1-4 entries as list / '
+        'tuple / array; the stored settings (response_times, smooth_fa_freqs, dt, label) are compared dtype/shape/bytes before '
+        'and after every block of duration calls. Custom measure "held" returns one caller-held table per record (the same '
+        'object at every call). distinct = digest of the '
         'complete case; non-trivial = record with a non-zero sample.')
 ASSUMPTIONS = ['NaN/inf-free real records (numpy arrays of any real dtype, lists, tuples) or AccSignal objects',
                '0 <= start < end <= 1 (the boundary values 0 and 1 are judged by the same definition), threshold >= 0, '
@@ -112,6 +130,12 @@ ASSUMPTIONS = ['NaN/inf-free real records (numpy arrays of any real dtype, lists
                '(4(n+8)u relative to the bound), so a bound closer than that to a sample is accepted either way',
                'custom measures need not be monotone: the definition is applied literally to the measure\'s own output; a '
                'non-positive final value leaves no sample strictly inside (outside the statement)',
+               'numeric arguments are judged with the value they had at call entry (float() of the scalar / 0-d / one-entry '
+               'array); a TypeError / ValueError for a one-entry array (ndim 1) is an observation - such arrays are judged only '
+               'when the function accepts them; bool records count True as 1, False as 0',
+               'np.float32 scalars: the float32 number itself is the caller\'s value (dt, fraction, threshold); float32 forms of '
+               'fractions and the new dt forms are not combined with float32 records (promotion moves knife edges)',
+               'settings are compared as stored (dtype, shape, bytes), not by container type',
                'oracle vf/oracles/durations.py is correct']
 EXHAUSTIVE = {'quick': 'all sequences over {-2,-1,0,1,2} of length 1..5 x fractions {(1/4,3/4),(1/8,1/2),(1/2,15/16)} x '
                        'thresholds {0,1,2} (array-level, Arias with dt=0.5, custom cumsum|x|, bracketed)',
@@ -137,12 +161,19 @@ _MIN_QUICK = {   # ~50 % of what a normal quick run reaches (minimum over seeds 
     # round 3 (checklist items 22-27)
     'rel.copy-protocol==fresh': 43000, 'rel.after-assignment==fresh': 9500, 'rel.after-refused-op==fresh': 8400,
     'rel.repeat-after-other-draw(any shape)': 1900, 'sig.edge-fraction(within 1e-3 of 0|1|each other)': 1300,
-    'brac.threshold within 1e-9 of some |a_i| (not equal)': 4000, 'brac.silent-record->(None,None)/0': 850}
-_THOROUGH_FACTOR = {}
+    'brac.threshold within 1e-9 of some |a_i| (not equal)': 4000, 'brac.silent-record->(None,None)/0': 850,
+    # round 5 (checklist items 28-33)
+    'form.0-d/one-entry array argument judged': 100000, 'form.numpy scalar (float32/int/bool_) argument judged': 45000,
+    'form.se flag not a Python bool (np.bool_/0-d/int) judged': 33000, 'purity.scalar-argument-unchanged': 100000,
+    'purity.measure-output-unchanged': 8000, 'purity.settings-unchanged': 5500,
+    'purity.settings-unchanged(user-given, outside the data band)': 300, 'sigvals.bool-record judged': 220}
+_THOROUGH_FACTOR = {k: 6 for k in ('form.0-d/one-entry array argument judged', 'form.numpy scalar (float32/int/bool_) argument judged',
+                                   'form.se flag not a Python bool (np.bool_/0-d/int) judged', 'purity.scalar-argument-unchanged',
+                                   'purity.measure-output-unchanged', 'sigvals.bool-record judged')}
 MIN_EVALS = {'quick': _MIN_QUICK, 'thorough': {k: v * _THOROUGH_FACTOR.get(k, 10) for k, v in _MIN_QUICK.items()}}
 
 CTX = None
-CURRENT = {'case': None}
+CURRENT = {'case': None, 'fm': None}
 HARNESS = {'crash': None}
 MEASURES = {}          # name -> callable(asig) (custom cumulative measures used by the workload)
 _FAIL = object()
@@ -276,8 +307,10 @@ def _clean(arr, mode='sig'):
     produces them) count through |a| for the bracketed duration and through their real part for the cumulative measures
     when the imaginary part is rounding noise."""
     arr = np.asarray(arr)
-    if arr.ndim != 1 or arr.size < 1 or arr.dtype.kind not in 'fiuc':
+    if arr.ndim != 1 or arr.size < 1 or arr.dtype.kind not in 'fiucb':
         return None
+    if arr.dtype.kind == 'b':      # on/off records (item 29): True counts as 1 (the library casts kind 'b' to float on purpose)
+        return arr.astype(np.int8)
     if arr.dtype.kind == 'c':
         if not np.all(np.isfinite(arr)):
             return None
@@ -296,6 +329,32 @@ def _snap(a):
     if isinstance(a, np.ndarray):
         return np.array(a)
     return None
+
+
+def _f(v):
+    """A numeric argument as a Python float: Python / numpy scalars (np.bool_ included), 0-d arrays, one-entry arrays."""
+    if isinstance(v, np.ndarray) and v.ndim > 0:
+        if v.size != 1:
+            raise TypeError('not a scalar')
+        v = v.reshape(-1)[0]
+    return float(v)
+
+
+def _nsnap(v):
+    """Private copy of a numeric argument at call entry: 0-d and one-entry arrays are MUTABLE (item 28)."""
+    return np.array(v) if isinstance(v, np.ndarray) else v
+
+
+def _many(*vals):
+    """Some numeric argument is an array with ndim > 0 (a one-entry array): judged when accepted, observed when refused."""
+    return any(isinstance(v, np.ndarray) and v.ndim > 0 for v in vals)
+
+
+def _purity_num(ctx, call, snap, now, what):
+    if not isinstance(snap, np.ndarray):
+        return
+    ctx.check(isinstance(now, np.ndarray) and _unchanged(snap, now), 'purity.scalar-argument-unchanged', lambda: _witness(call),
+              '%s: the caller\'s array-valued scalar %s = %r differs from its value at call entry %r' % (call['fn'], what, now, snap))
 
 
 def _unchanged(snap, now):
@@ -321,8 +380,9 @@ def _squares_normal(arr):
 def check_sig(ctx, name, call, arr, dt, s, e, se, measure, result, im_vals=None):
     """Post-condition of one significant-duration call. name: clause prefix; arr: the record AT CALL ENTRY."""
     arr = _clean(arr)
+    rec_bool = np.asarray(call['values']).dtype.kind == 'b'
     try:
-        s, e, dt = float(s), float(e), float(dt)
+        s, e, dt = _f(s), _f(e), _f(dt)
     except (TypeError, ValueError):
         arr = None
     if arr is None or not (0 <= s < e <= 1) or not (dt > 0):
@@ -385,13 +445,16 @@ def check_sig(ctx, name, call, arr, dt, s, e, se, measure, result, im_vals=None)
             ctx.ok('sig.boundary-fraction(start=0|end=1)')
         if 0 < s <= 1e-3 or 1 - 1e-3 <= e < 1 or e - s <= 1e-3:
             ctx.ok('sig.edge-fraction(within 1e-3 of 0|1|each other)')
+        if rec_bool:
+            ctx.ok('sigvals.bool-record judged')
+        _form_markers(ctx, (call.get('dt'), call.get('start'), call.get('end')), call.get('se'))
 
 
 def check_brac(ctx, name, call, arr, dt, threshold, se, result):
     arr = _clean(arr, 'brac')
     try:
-        th = float(threshold)
-        dt = float(dt)
+        th = _f(threshold)
+        dt = _f(dt)
     except (TypeError, ValueError):
         th = float('nan')
     if arr is None or not (th >= 0) or not (dt > 0):
@@ -412,6 +475,8 @@ def check_brac(ctx, name, call, arr, dt, threshold, se, result):
                   % (call['fn'], th, se, max(abs(v) for v in vals), result))
         if okk and not np.any(arr):
             ctx.ok('brac.silent-record->(None,None)/0')
+        if okk:
+            _form_markers(ctx, (call.get('dt'), call.get('threshold')), call.get('se'))
         return
     f, l = ref
     if se:
@@ -437,6 +502,18 @@ def check_brac(ctx, name, call, arr, dt, threshold, se, result):
             d = np.abs(np.abs(arr) - th)
             if np.any((d > 0) & (d <= 1e-9 * th)):
                 ctx.ok('brac.threshold within 1e-9 of some |a_i| (not equal)')
+        _form_markers(ctx, (call.get('dt'), call.get('threshold')), call.get('se'))
+
+
+def _form_markers(ctx, nums, flag):
+    """Class markers (item 28): a correctly answered call had a numeric argument / the se flag in a non-Python scalar form."""
+    for v in nums:
+        if isinstance(v, np.ndarray):
+            ctx.ok('form.0-d/one-entry array argument judged')
+        elif isinstance(v, (np.float32, np.integer, np.bool_)):
+            ctx.ok('form.numpy scalar (float32/int/bool_) argument judged')
+    if flag is not None and not isinstance(flag, bool):
+        ctx.ok('form.se flag not a Python bool (np.bool_/0-d/int) judged')
 
 
 def _guard(fn):
@@ -475,21 +552,31 @@ def _measure_name(imf):
     return getattr(imf, '__name__', repr(imf))
 
 
-# -- pre hooks: everything the oracle uses is captured AT CALL ENTRY (private copies); the object's caches are never read
+# -- pre hooks: everything the oracle uses is captured AT CALL ENTRY (private copies); the object's caches are never read.
+# Numeric arguments and the object's dt may be 0-d / one-entry arrays, which a function can change in place (item 28): they
+# are snapshotted like records, the call is judged with the values at entry and the caller's objects are compared afterwards.
 @_guard
 def _pre_vals(args, kwargs):
     motion = args[0] if len(args) > 0 else kwargs.get('motion')
-    return {'motion': _snap(motion)}
+    dt = args[1] if len(args) > 1 else kwargs.get('dt')
+    s = args[2] if len(args) > 2 else kwargs.get('start', 0.05)
+    e = args[3] if len(args) > 3 else kwargs.get('end', 0.95)
+    se = args[4] if len(args) > 4 else kwargs.get('se', False)
+    return {'motion': _snap(motion), 'num': (_nsnap(dt), _nsnap(s), _nsnap(e), _nsnap(se))}
 
 
 @_guard
 def _pre_sig(args, kwargs):
     asig, s, e, imf, se = _parse_sig(args, kwargs)
-    st = {'values': np.array(asig.values), 'dt': asig.dt, 'im_vals': None}
+    st = {'values': np.array(asig.values), 'dt': _nsnap(asig.dt), 'im_vals': None, 'im_raw': None,
+          'num': (_nsnap(s), _nsnap(e), _nsnap(se))}
     if imf is not None:
         with attach.paused():
             try:
-                st['im_vals'] = np.array(imf(asig))
+                raw = imf(asig)
+                st['im_vals'] = np.array(raw)
+                if isinstance(raw, np.ndarray):
+                    st['im_raw'] = raw       # a measure may hand out a table the CALLER holds (item 32): compared after the call
             except Exception:
                 st['im_vals'] = None
     return st
@@ -498,11 +585,14 @@ def _pre_sig(args, kwargs):
 @_guard
 def _pre_brac(args, kwargs):
     asig = args[0] if len(args) > 0 else kwargs['asig']
-    return {'values': np.array(asig.values), 'dt': asig.dt}
+    th = args[1] if len(args) > 1 else kwargs.get('threshold')
+    se = args[2] if len(args) > 2 else kwargs.get('se', False)
+    return {'values': np.array(asig.values), 'dt': _nsnap(asig.dt), 'num': (_nsnap(th), _nsnap(se))}
 
 
 def _sig_context(args, kwargs, pre):
     asig, s, e, imf, se = _parse_sig(args, kwargs)
+    s, e, se = pre['num']
     arr = pre['values']
     dt = pre['dt']
     if imf is None:
@@ -520,21 +610,34 @@ def _vals_record(motion, pre):
     return pre['motion'] if pre and pre.get('motion') is not None else motion
 
 
+def _vals_context(fn, args, kwargs, pre, with_se):
+    motion, dt_now, s_now, e_now, se_now = _parse_vals(args, kwargs, with_se)
+    dt, s, e, se = pre['num'] if pre and pre.get('num') else (dt_now, s_now, e_now, se_now)
+    if not with_se:
+        se = False
+    rec = _vals_record(motion, pre)
+    call = {'fn': fn, 'values': np.asarray(rec), 'dt': dt, 'start': s, 'end': e, 'se': se}
+    return motion, rec, call, dt, s, e, se, (dt_now, s_now, e_now)
+
+
+def _vals_purity(call, pre, motion, nows):
+    _purity(CTX, call, pre and pre.get('motion'), motion, 'motion')
+    if pre and pre.get('num'):
+        for snap, now, what in zip(pre['num'], nows, ('dt', 'start', 'end')):
+            _purity_num(CTX, call, snap, now, what)
+
+
 @_guard
 def _post_vals(args, kwargs, result, pre):
-    motion, dt, s, e, se = _parse_vals(args, kwargs)
-    rec = _vals_record(motion, pre)
-    call = {'fn': 'calc_sig_dur_vals', 'values': np.asarray(rec), 'dt': dt, 'start': s, 'end': e, 'se': se}
-    _purity(CTX, call, pre and pre.get('motion'), motion, 'motion')
+    motion, rec, call, dt, s, e, se, nows = _vals_context('calc_sig_dur_vals', args, kwargs, pre, True)
+    _vals_purity(call, pre, motion, nows)
     check_sig(CTX, 'sigvals', call, rec, dt, s, e, se, 'squares', result)
 
 
 @_guard
 def _post_alias(args, kwargs, result, pre):
-    motion, dt, s, e, _ = _parse_vals(args, kwargs, with_se=False)
-    rec = _vals_record(motion, pre)
-    call = {'fn': 'calc_significant_duration', 'values': np.asarray(rec), 'dt': dt, 'start': s, 'end': e, 'se': False}
-    _purity(CTX, call, pre and pre.get('motion'), motion, 'motion')
+    motion, rec, call, dt, s, e, se, nows = _vals_context('calc_significant_duration', args, kwargs, pre, False)
+    _vals_purity(call, pre, motion, nows)
     check_sig(CTX, 'alias.significant_duration', call, rec, dt, s, e, False, 'squares', result)
 
 
@@ -542,14 +645,23 @@ def _post_alias(args, kwargs, result, pre):
 def _post_sig(args, kwargs, result, pre):
     asig, name, call, arr, dt, s, e, se, measure, im_vals = _sig_context(args, kwargs, pre)
     _purity(CTX, call, arr, asig.values, 'asig.values')
+    _, s_now, e_now, _, _ = _parse_sig(args, kwargs)
+    for snap, now, what in ((dt, asig.dt, 'asig.dt'), (s, s_now, 'start'), (e, e_now, 'end')):
+        _purity_num(CTX, call, snap, now, what)
+    if call['im'] == 'held' and pre.get('im_raw') is not None and im_vals is not None:
+        CTX.check(_unchanged(im_vals, pre['im_raw']), 'purity.measure-output-unchanged', lambda: _witness(call),
+                  'calc_sig_dur changed the table that the custom measure handed out (it belongs to the caller)')
     check_sig(CTX, name, call, arr, dt, s, e, se, measure, result, im_vals)
 
 
 def _onex_common(name, call, arr, dt, s, e, measure, exc, im_vals=None):
     ctx = CTX
     arr = _clean(arr)
+    if _many(s, e, dt) and isinstance(exc, (TypeError, ValueError)):
+        ctx.observe('%s: one-entry array argument refused with %s (judged only when accepted)' % (name, type(exc).__name__))
+        return
     try:
-        s, e, dt = float(s), float(e), float(dt)
+        s, e, dt = _f(s), _f(e), _f(dt)
     except (TypeError, ValueError):
         arr = None
     if arr is None or not (0 <= s < e <= 1) or not (dt > 0) or (measure == 'custom' and _clean(im_vals) is None):
@@ -568,17 +680,13 @@ def _onex_common(name, call, arr, dt, s, e, measure, exc, im_vals=None):
 
 @_guard
 def _onex_vals(args, kwargs, exc, pre):
-    motion, dt, s, e, se = _parse_vals(args, kwargs)
-    rec = _vals_record(motion, pre)
-    call = {'fn': 'calc_sig_dur_vals', 'values': np.asarray(rec), 'dt': dt, 'start': s, 'end': e, 'se': se}
+    motion, rec, call, dt, s, e, se, nows = _vals_context('calc_sig_dur_vals', args, kwargs, pre, True)
     _onex_common('sigvals', call, rec, dt, s, e, 'squares', exc)
 
 
 @_guard
 def _onex_alias(args, kwargs, exc, pre):
-    motion, dt, s, e, _ = _parse_vals(args, kwargs, with_se=False)
-    rec = _vals_record(motion, pre)
-    call = {'fn': 'calc_significant_duration', 'values': np.asarray(rec), 'dt': dt, 'start': s, 'end': e}
+    motion, rec, call, dt, s, e, se, nows = _vals_context('calc_significant_duration', args, kwargs, pre, False)
     _onex_common('alias.significant_duration', call, rec, dt, s, e, 'squares', exc)
 
 
@@ -595,32 +703,40 @@ def _parse_brac(args, kwargs, with_se=True):
     return asig, th, se
 
 
-@_guard
-def _post_brac(args, kwargs, result, pre):
-    asig, th, se = _parse_brac(args, kwargs)
+def _brac_context(fn, args, kwargs, pre, with_se):
+    asig, th_now, _ = _parse_brac(args, kwargs, with_se)
+    th, se = pre['num']
+    if not with_se:
+        se = False
     arr = pre['values']
-    call = {'fn': 'calc_brac_dur', 'values': arr, 'dt': pre['dt'], 'threshold': th, 'se': se}
-    _purity(CTX, call, arr, asig.values, 'asig.values')
-    check_brac(CTX, 'brac', call, arr, pre['dt'], th, se, result)
+    call = {'fn': fn, 'values': arr, 'dt': pre['dt'], 'threshold': th, 'se': se}
+    return asig, arr, call, th, se, th_now
 
 
-@_guard
-def _post_brac_alias(args, kwargs, result, pre):
-    asig, th, _ = _parse_brac(args, kwargs, with_se=False)
-    arr = pre['values']
-    call = {'fn': 'calc_bracketed_duration', 'values': arr, 'dt': pre['dt'], 'threshold': th, 'se': False}
-    _purity(CTX, call, arr, asig.values, 'asig.values')
-    check_brac(CTX, 'alias.bracketed_duration', call, arr, pre['dt'], th, False, result)
+def _post_brac_factory(fn, name, with_se):
+    @_guard
+    def post(args, kwargs, result, pre):
+        asig, arr, call, th, se, th_now = _brac_context(fn, args, kwargs, pre, with_se)
+        _purity(CTX, call, arr, asig.values, 'asig.values')
+        _purity_num(CTX, call, pre['dt'], asig.dt, 'asig.dt')
+        _purity_num(CTX, call, th, th_now, 'threshold')
+        check_brac(CTX, name, call, arr, pre['dt'], th, se, result)
+    return post
+
+
+_post_brac = _post_brac_factory('calc_brac_dur', 'brac', True)
+_post_brac_alias = _post_brac_factory('calc_bracketed_duration', 'alias.bracketed_duration', False)
 
 
 def _onex_brac_factory(fn, name, with_se):
     @_guard
     def onex(args, kwargs, exc, pre):
-        asig, th, se = _parse_brac(args, kwargs, with_se)
-        arr = pre['values']
-        call = {'fn': fn, 'values': arr, 'dt': pre['dt'], 'threshold': th, 'se': se}
+        asig, arr, call, th, se, th_now = _brac_context(fn, args, kwargs, pre, with_se)
         if _clean(arr, 'brac') is None:
             CTX.observe('%s: call outside the quantifier raised %s' % (name, type(exc).__name__))
+            return
+        if _many(th, pre['dt']) and isinstance(exc, (TypeError, ValueError)):
+            CTX.observe('%s: one-entry array argument refused with %s (judged only when accepted)' % (name, type(exc).__name__))
             return
         CTX.exception(name + '.start/end==definition', _witness(call), exc)
     return onex
@@ -644,6 +760,22 @@ def _m_dip(a):
     return out
 
 
+HELD = {}
+
+
+def _m_held(a):
+    """A measure that hands out a table the CALLER holds (one array object per record, the same object at every call, like a
+    user-side lru_cache): calc_sig_dur may read it, never write to it (item 32)."""
+    v = np.asarray(a.values)
+    key = (v.dtype.str, v.tobytes())
+    t = HELD.get(key)
+    if t is None:
+        if len(HELD) > 6:
+            HELD.clear()
+        t = HELD[key] = np.array(np.cumsum(np.abs(v)), dtype=float)
+    return t
+
+
 NON_MONOTONE = ['signed', 'signed_sq', 'overshoot', 'dip']
 
 
@@ -662,6 +794,7 @@ def install(ctx):
         MEASURES['signed_sq'] = lambda a: np.cumsum(np.asarray(a.values, dtype=float) * np.abs(a.values))
         MEASURES['overshoot'] = _m_overshoot      # transient excursion above the final value
         MEASURES['dip'] = _m_dip                  # falls below the start fraction again after entering the band
+        MEASURES['held'] = _m_held                # hands out the caller's own table
     if getattr(im.calc_sig_dur_vals, '__vf_c10__', False):
         return
     attach.wrap(im, 'calc_sig_dur_vals', _post_vals, pre=_pre_vals, on_exception=_onex_vals).__vf_c10__ = True
@@ -756,8 +889,55 @@ def _thresholds(cur, specs):
     return out
 
 
-def _th_form(th, j):
+class Forms(object):
+    """The numbers of one case in other scalar forms (item 28). Array-valued forms (0-d, one-entry) are MUTABLE: one object per
+    (form, value) is handed to every call of the case that uses the value (item 4), so a function that changes it in place is
+    seen by the purity clause of that call and by the judgement of the calls that follow."""
+    def __init__(self):
+        self.cache = {}
+
+    def _arr(self, kind, v):
+        key = (kind, repr(v))
+        if key not in self.cache:
+            self.cache[key] = np.array(v) if kind == '0d' else np.array([v])
+        return self.cache[key]
+
+    def get(self, kind, v):
+        v = float(v)
+        if kind == '1e':
+            return self._arr('1e', v)
+        if kind == 'f32' and float(np.float32(v)) == v:
+            return np.float32(v)
+        if kind == 'i64' and v.is_integer() and abs(v) < 2 ** 53:
+            return np.int64(v)
+        if kind == 'int' and v.is_integer() and abs(v) < 2 ** 53:
+            return int(v)
+        if kind == 'bool' and v in (0.0, 1.0):
+            return np.bool_(v)
+        if kind == '0dint' and v.is_integer() and abs(v) < 2 ** 53:
+            return self._arr('0d', int(v))
+        return self._arr('0d', v)
+
+
+def _flag(se, k):
+    """The se flag as True / np.True_ / a 0-d bool array / 1 (`se is True` holds for the first only)."""
+    k = k % 4
+    if k == 1:
+        return np.bool_(se)
+    if k == 2:
+        return np.array(bool(se))
+    if k == 3:
+        return int(bool(se))
+    return bool(se)
+
+
+FRAC_FORMS = {4: ('0d', '0d'), 5: ('f32', 'f32'), 6: ('bool', 'bool'), 7: ('1e', '0d'), 8: ('int', 'i64'), 9: ('0d', '1e')}
+
+
+def _th_form(th, j, fm=None):
     """The same threshold as another Python/numpy scalar form."""
+    if fm is not None and j % 10 >= 5:
+        return fm.get(['0d', 'f32', 'i64', '1e', 'bool'][j % 10 - 5], th)
     if j % 5 == 3:
         return np.float64(th)
     if j % 5 == 4 and float(th).is_integer() and abs(th) < 2 ** 53:
@@ -971,6 +1151,16 @@ def _dt_arg(dt, form):
         return np.float64(dt)
     if form == 'int' and float(dt).is_integer():
         return int(dt)
+    if form == 'f32':        # the caller's step IS the float32 number (the reference is what the caller passed, item 18)
+        return np.float32(dt)
+    if form == 'bool' and dt == 1.0:
+        return np.True_
+    if form in ('i64', 'bool') and float(dt).is_integer():
+        return np.int64(dt)
+    if form == '0dint' and float(dt).is_integer():
+        return np.array(int(dt))
+    if form in ('0d', '0dint', 'i64', 'bool'):
+        return np.array(float(dt))      # a MUTABLE 0-d array: stored by AccSignal as given, snapshotted by the monitors
     return dt
 
 
@@ -986,13 +1176,26 @@ def _build(eqsig, ctx, case):
         arg = [int(v) if float(v).is_integer() and i % 2 else float(v) for i, v in enumerate(x.tolist())]
     else:
         arg = _layout(x, case.get('layout'))
-    asig = eqsig.AccSignal(arg, _dt_arg(float(case['dt']), case.get('dt_form')))
+    kw = {}
+    st = case.get('settings')
+    if st:      # user-given settings, partly outside the band of the data (periods below 2 dt, frequencies above Nyquist)
+        conv = {'list': lambda v: [float(q) for q in v], 'tuple': lambda v: tuple(float(q) for q in v),
+                'array': lambda v: np.array(v, dtype=float)}[st.get('form', 'array')]
+        kw = {'response_times': conv(np.asarray(st['response_times']).ravel()),
+              'smooth_fa_freqs': conv(np.asarray(st['smooth_fa_freqs']).ravel())}
+    asig = eqsig.AccSignal(arg, _dt_arg(float(case['dt']), case.get('dt_form')), **kw)
     for op in case.get('history') or []:
         asig = _apply_op(eqsig, ctx, asig, op)
     return asig
 
 
-def _call_vals(im, x, dt, s, e, se, form):
+def _call_vals(im, x, dt, s, e, se, form, fm=None):
+    if form >= 4:
+        ks, ke = FRAC_FORMS[form]
+        s, e, se = fm.get(ks, s), fm.get(ke, e), _flag(se, form)
+        if form % 2:
+            return im.calc_sig_dur_vals(x, dt, s, e, se)
+        return im.calc_sig_dur_vals(x, dt, start=s, end=e, se=se)
     if form == 0:
         return im.calc_sig_dur_vals(x, dt, start=s, end=e, se=se)
     if form == 1:
@@ -1004,7 +1207,13 @@ def _call_vals(im, x, dt, s, e, se, form):
     return im.calc_sig_dur_vals(motion=x, dt=dt, end=e, start=s, se=se)
 
 
-def _call_sig(im, asig, s, e, imf, se, form):
+def _call_sig(im, asig, s, e, imf, se, form, fm=None):
+    if form >= 4:
+        ks, ke = FRAC_FORMS[form]
+        s, e, se = fm.get(ks, s), fm.get(ke, e), _flag(se, form + 1)
+        if form % 2:
+            return im.calc_sig_dur(asig, s, e, imf, se)
+        return im.calc_sig_dur(asig, start=s, end=e, im=imf, se=se)
     if form == 0:
         return im.calc_sig_dur(asig, start=s, end=e, im=imf, se=se)
     if form == 1:
@@ -1025,6 +1234,7 @@ def run_case(eqsig, ctx, case):
                 _run_case(eqsig, ctx, case)
     finally:
         CURRENT['case'] = None
+        CURRENT['fm'] = None
 
 
 def _rel(ctx, cond, clause, case, what, msg):
@@ -1082,6 +1292,7 @@ def _run_protocol(eqsig, ctx, case):
     fracs = [(float(f[0]), float(f[1])) for f in case['fracs']]
     measures = list(case.get('measures') or [])
     dt = float(case['dt'])
+    CURRENT['fm'] = Forms() if case.get('scalar_forms') else None
     try:
         a = _build(eqsig, ctx, case)
     except Exception as e:
@@ -1123,8 +1334,10 @@ def _run_case(eqsig, ctx, case):
         return
     im = eqsig.im
     x = _layout(np.asarray(case['values']), case.get('layout'))     # ONE argument object reused by all array-level calls
-    dt = float(case['dt'])
-    dt_arg = _dt_arg(dt, case.get('dt_form'))
+    dt_arg = _dt_arg(float(case['dt']), case.get('dt_form'))     # ONE object for every array-level call (0-d arrays are mutable)
+    dt = float(dt_arg)                                           # the caller's step is the reference (np.float32 rounds it)
+    fm = CURRENT['fm'] = Forms() if case.get('scalar_forms') else None
+    nform = 10 if fm is not None else 4
     fracs = [(float(f[0]), float(f[1])) for f in case['fracs']]
     k_scale = int(case.get('k_scale', 0))
     factor = case.get('factor')
@@ -1146,11 +1359,11 @@ def _run_case(eqsig, ctx, case):
     vals_pairs = {}
     if case.get('array_level', True) and not case.get('brac_only') and _clean(x) is not None:
         for j, (s, e) in enumerate(fracs):
-            form = (j + form0) % 4
-            if form == 3 and x.dtype == np.float32:
+            form = (j + form0) % nform
+            if form >= 3 and x.dtype == np.float32:
                 form = 0      # np.float64 fractions change numpy's promotion for float32 records (knife edges move)
-            pair = _call(lambda: _call_vals(im, xc, dt_arg, s, e, True, form))
-            scal = _call(lambda: _call_vals(im, xc, dt_arg, s, e, False, form))   # same argument forms: the two results are compared
+            pair = _call(lambda: _call_vals(im, xc, dt_arg, s, e, True, form, fm))
+            scal = _call(lambda: _call_vals(im, xc, dt_arg, s, e, False, form, fm))   # same argument forms: the two results are compared
             vals_pairs[(s, e)] = pair
             _se_relation(ctx, case, 'calc_sig_dur_vals(start=%r,end=%r)' % (s, e), pair, scal, dt)
             if (s, e) == (0.05, 0.95) and j % 2 == 0:
@@ -1228,7 +1441,41 @@ def _object_block(eqsig, ctx, case, asig, dt, fracs, measures, full, compare_fre
     fresh = eqsig.AccSignal(np.array(cur), dt_obj) if compare_fresh else None
     ths = _thresholds(cur, case.get('thr_specs') or [])
     form0 = int(case.get('form', 0))
+    fm = CURRENT['fm']
+    nform = 10 if fm is not None else 4
+    settings_before = _settings(asig)
+    try:
+        _object_calls(eqsig, ctx, case, asig, dt, dt_obj, cur, fresh, ths, form0, fm, nform, fracs, measures, full, order_seed,
+                      clause, label, obs_before)
+    finally:
+        # reads must not change settings (item 31): the user-given periods / smoothing frequencies / step are what they were
+        now = _settings(asig)
+        bad = [k for k in settings_before if settings_before[k][0] != now[k][0]]
+        _rel(ctx, not bad, 'purity.settings-unchanged', case, 'AccSignal settings after the duration functions' + label,
+             'settings changed: %s' % ', '.join('%s %s -> %s' % (k, settings_before[k][1], now.get(k, (None, None))[1]) for k in bad))
+        if not bad and case.get('settings'):
+            ctx.ok('purity.settings-unchanged(user-given, outside the data band)')
 
+
+SETTINGS = ['response_times', 'smooth_fa_freqs', 'dt', 'label']
+
+
+def _settings(asig):
+    """The user-given settings of the object as they are stored (dtype, shape, bytes; no copy of the object, no derived read)."""
+    out = {}
+    for k in SETTINGS:
+        try:
+            v = getattr(asig, k)
+            a = np.asarray(v)
+            out[k] = ((a.dtype.str, a.shape, a.tobytes()), repr(v)[:200])
+        except Exception as e:
+            out[k] = (('raised', type(e).__name__), 'raised %s' % type(e).__name__)
+    return out
+
+
+def _object_calls(eqsig, ctx, case, asig, dt, dt_obj, cur, fresh, ths, form0, fm, nform, fracs, measures, full, order_seed,
+                  clause, label, obs_before):
+    im = eqsig.im
     if not full:
         calls = []
         for (s, e) in ([] if case.get('brac_only') else fracs[:2]):
@@ -1237,9 +1484,11 @@ def _object_block(eqsig, ctx, case, asig, dt, fracs, measures, full, compare_fre
                 for se in (True, False):
                     calls.append(('calc_sig_dur(im=%s,start=%r,end=%r,se=%s)' % (mname, s, e, se),
                                   lambda o, s=s, e=e, imf=imf, se=se: im.calc_sig_dur(o, start=s, end=e, im=imf, se=se)))
-        for th in ths[:5]:
+        for j, th in enumerate(ths[:5]):
+            tha = _th_form(th, j + form0 + 5, fm) if fm is not None else th
             for se in (True, False):
-                calls.append(('calc_brac_dur(threshold=%r,se=%s)' % (th, se), lambda o, th=th, se=se: im.calc_brac_dur(o, th, se=se)))
+                sef = _flag(se, j + form0) if fm is not None else se
+                calls.append(('calc_brac_dur(threshold=%r,se=%s)' % (th, se), lambda o, th=tha, se=sef: im.calc_brac_dur(o, th, se=se)))
         calls.append(('calc_bracketed_duration(0)', lambda o: im.calc_bracketed_duration(o, 0)))
         rng = np.random.default_rng(order_seed or 0)
         order = list(rng.permutation(len(calls))) + list(rng.integers(0, len(calls), size=4))
@@ -1270,11 +1519,11 @@ def _object_block(eqsig, ctx, case, asig, dt, fracs, measures, full, compare_fre
         for j, (s, e) in enumerate(fracs):
             if mname and j >= 2:
                 break
-            form = (j + 1 + form0) % 4
-            if form == 3 and cur.dtype == np.float32:
+            form = (j + 1 + form0 + (3 if mname else 0)) % nform
+            if form >= 3 and cur.dtype == np.float32:
                 form = 0
-            pair = _call(lambda: _call_sig(im, asig, s, e, imf, True, form))
-            scal = _call(lambda: _call_sig(im, asig, s, e, imf, False, form))
+            pair = _call(lambda: _call_sig(im, asig, s, e, imf, True, form, fm))
+            scal = _call(lambda: _call_sig(im, asig, s, e, imf, False, form, fm))
             pairs[(s, e)] = pair
             what = 'calc_sig_dur(im=%s,start=%r,end=%r)' % (mname, s, e)
             _se_relation(ctx, case, what, pair, scal, dt)
@@ -1302,13 +1551,14 @@ def _object_block(eqsig, ctx, case, asig, dt, fracs, measures, full, compare_fre
     # ------------------------------------------------------------------------------------------ bracketed
     results = []
     for j, th in enumerate(ths):
-        tha = _th_form(th, j + form0)
+        tha = _th_form(th, j + form0, fm)
+        yes, no = (_flag(True, j + form0), _flag(False, j + form0 + 1)) if fm is not None else (True, False)
         if j % 2:
-            pair = _call(lambda: im.calc_brac_dur(asig, tha, True))
+            pair = _call(lambda: im.calc_brac_dur(asig, tha, yes))
             scal = _call(lambda: im.calc_brac_dur(asig, threshold=tha))
         else:
-            pair = _call(lambda: im.calc_brac_dur(asig, threshold=tha, se=True))
-            scal = _call(lambda: im.calc_brac_dur(asig, tha, se=False) if j % 4 else im.calc_brac_dur(asig, tha))
+            pair = _call(lambda: im.calc_brac_dur(asig, threshold=tha, se=yes))
+            scal = _call(lambda: im.calc_brac_dur(asig, tha, se=no) if j % 4 else im.calc_brac_dur(asig, tha))
         what = 'calc_brac_dur(threshold=%r)' % th
         _se_relation(ctx, case, what, pair, scal, dt)
         if j % 3 == 0:
@@ -1347,7 +1597,7 @@ def _object_block(eqsig, ctx, case, asig, dt, fracs, measures, full, compare_fre
             _rel(ctx, _same(first, again), 'rel.same-object-recall', case, 'calc_sig_dur(start=%r,end=%r)' % (s, e),
                  'first call %r, re-called after the other analysis calls %r' % (_show(first), _show(again)))
         th0, p0, _ = results[1]
-        again = _call(lambda: im.calc_brac_dur(asig, _th_form(th0, 1 + form0), se=True))
+        again = _call(lambda: im.calc_brac_dur(asig, _th_form(th0, 1 + form0, fm), se=True))
         _rel(ctx, _same(p0, again), 'rel.same-object-recall', case, 'calc_brac_dur(threshold=%r)' % th0,
              'first call %r, re-called after the other analysis calls %r' % (_show(p0), _show(again)))
     # the object keeps every public observable (read on deep copies taken before / after the analysis calls)
@@ -1785,10 +2035,11 @@ def gen_protocol_case(rng):
         steps.append({'obj': obj, 'kind': kind, 'ops': ops})
     t1 = float(abs(rng.normal()) * amp)
     case = {'kind': 'protocol', 'cls': how if not how.startswith('pickle') else 'pickle', 'proto': how, 'form': int(rng.integers(4)),
-            'layout': [None, None, 'readonly', 'stride'][int(rng.integers(4))], 'dt_form': ['float', 'np'][int(rng.integers(2))],
+            'layout': [None, None, 'readonly', 'stride'][int(rng.integers(4))],
+            'dt_form': ['float', 'np', '0d', 'f32', 'float', 'np'][int(rng.integers(6))], 'scalar_forms': bool(rng.random() < 0.4),
             'container': ['array', 'array', 'list', 'tuple'][int(rng.integers(4))], 'repeat': False,
             'fracs': [STD_FRACS[0]] + gen_fracs(rng, cls in ('plateau', 'intnoise', 'alt', 'step', 'impulse'))[:2],
-            'measures': [['cumabs'], ['cav'], ['isq_dt']][int(rng.integers(3))] + [NON_MONOTONE[int(rng.integers(4))]],
+            'measures': [['cumabs'], ['cav'], ['isq_dt'], ['held']][int(rng.integers(4))] + [NON_MONOTONE[int(rng.integers(4))]],
             'k_scale': 0, 'factor': None, 'k_pad': 0,
             'thr_specs': [['zero'], ['abs', t1], ['abs', float(abs(rng.normal()) * amp * 0.3)], ['rank', 0], ['between', 0]],
             'history': history, 'steps': steps, 'order_seed': int(rng.integers(1 << 30)), 'dt': float(dt), 'values': x}
@@ -1870,6 +2121,7 @@ def _edge_modifier(rng, x):
     return x, ['extreme-first', 'extreme-last', 'plateau-start', 'plateau-end', 'sign-change-end', 'zero-start', 'zero-end', 'plain'][k]
 
 
+NEW_DT_FORMS = ['0d', '0d', 'f32', 'i64', '0dint', 'bool']
 KINDS = ['generic', 'shape', 'tie', 'history', 'container', 'generic', 'protocol', 'tie', 'history', 'scale', 'edge', 'shape',
          'history', 'extreme', 'protocol']
 
@@ -1879,14 +2131,19 @@ def gen_case(rng, idx):
     if kind == 'protocol':
         return gen_protocol_case(rng)
     case = {'kind': kind, 'form': int(rng.integers(4)), 'layout': None, 'dt_form': ['float', 'float', 'np', 'int'][int(rng.integers(4))],
-            'repeat': bool(rng.random() < 0.35), 'observe_obj': bool(rng.random() < 0.3)}
+            'repeat': bool(rng.random() < 0.35), 'observe_obj': bool(rng.random() < 0.3),
+            'scalar_forms': bool(rng.random() < 0.4)}
+    if case['scalar_forms'] and rng.random() < 0.75:
+        # scalar forms of dt (item 28): mutable 0-d arrays (float / int), np.float32 (the rounded number IS the caller's step),
+        # np.int64, np.True_ for dt = 1
+        case['dt_form'] = NEW_DT_FORMS[int(rng.integers(len(NEW_DT_FORMS)))]
     if kind == 'tie':
         x, cls = gen_tie_record(rng)
         if rng.random() < 0.3:
             x = x * 2.0 ** int(rng.integers(-6, 7))
         dt = float(rng.choice(POW2_DT)) if rng.random() < 0.7 else gen.dt(rng)
         case['fracs'] = gen_fracs(rng, True)
-        case['measures'] = ['cumabs', NON_MONOTONE[int(rng.integers(4))]] + (['cav'] if rng.random() < 0.3 else [])
+        case['measures'] = ['cumabs', NON_MONOTONE[int(rng.integers(4))]] + ([['cav'], ['held']][int(rng.integers(2))] if rng.random() < 0.4 else [])
     else:
         if kind == 'edge':
             n = int(N_EDGE[int(rng.integers(len(N_EDGE)))])
@@ -1899,7 +2156,8 @@ def gen_case(rng, idx):
         dt = gen.dt(rng) if r < 0.75 else (float(rng.choice(POW2_DT)) if r < 0.88 else
                                            gen.awkward_dt(rng, int(rng.choice([3, 7, 11, 49, 93]))))
         case['fracs'] = gen_fracs(rng, cls in ('plateau', 'intnoise', 'const', 'alt', 'step', 'impulse'))
-        case['measures'] = [['cumabs'], ['cav'], ['isq_dt'], ['cumabs', 'cav']][int(rng.integers(4))] + [NON_MONOTONE[int(rng.integers(4))]]
+        case['measures'] = [['cumabs'], ['cav'], ['isq_dt'], ['cumabs', 'cav'], ['held'], ['held', 'cav']][int(rng.integers(6))] \
+            + [NON_MONOTONE[int(rng.integers(4))]]
     case['cls'] = cls
     case['k_scale'] = int(rng.choice([-20, -3, -1, 1, 2, 10, 40]))
     case['factor'] = float(rng.choice([3.7, 1e-3, 0.3, 981.0])) if rng.random() < 0.5 else None
@@ -1946,7 +2204,7 @@ def gen_case(rng, idx):
             case['container'] = 'list'
     if kind == 'container':
         c = ['f32', 'i64', 'list', 'tuple', 'i8', 'i16', 'i32', 'u8', 'u16', 'intlist', 'mixedlist', 'stride', 'reversed',
-             'readonly'][int(rng.integers(14))]
+             'readonly', 'bool', 'boollist', 'bool'][int(rng.integers(17))]
         special = None
         r = rng.random()
         if r < 0.12:         # silent record: valid input of the bracketed duration (nothing exceeds), premise false for the others
@@ -1958,8 +2216,38 @@ def gen_case(rng, idx):
             if c in ('f32', 'list', 'tuple', 'stride', 'reversed', 'readonly') and rng.random() < 0.5:
                 x = x * float(rng.choice([0.37, 1e-3, 12.5]))
         case['cls'] = c
-        if c == 'f32':
+        if c in ('bool', 'boollist'):
+            # on/off records, rectangular pulses (item 29): dtype bool as array, read-only / strided view or list of Python bools;
+            # 1, 2, 3 samples as well. True counts as 1 (NumPy would add bools with OR: the library casts to float on purpose).
+            n = len(x) if rng.random() < 0.7 else int(rng.choice([1, 2, 3, 4]))
+            r2 = rng.random()
+            if special == 'silent':
+                y = np.zeros(n, dtype=bool)
+            elif special == 'one-signed':
+                y = np.ones(n, dtype=bool)
+            elif r2 < 0.5:     # rectangular pulses of random widths
+                y = np.zeros(n, dtype=bool)
+                i = int(rng.integers(0, max(1, n // 4) + 1))
+                while i < n:
+                    w = int(rng.integers(1, max(2, n // 6) + 1))
+                    y[i:i + w] = True
+                    i += w + int(rng.integers(1, max(2, n // 6) + 1))
+            else:
+                y = np.abs(np.asarray(x[:n], dtype=float)) > float(np.median(np.abs(x[:n])))
+            if not np.any(y) and special != 'silent':
+                y[int(rng.integers(n))] = True
+            x = y
+            case['factor'] = None
+            case['k_scale'] = int(rng.integers(1, 12))
+            if c == 'boollist':
+                case['container'] = 'list'
+            elif rng.random() < 0.4:
+                case['layout'] = ['stride', 'reversed', 'readonly'][int(rng.integers(3))]
+            case['thr_specs'] = case['thr_specs'] + [['abs', 0.5], ['abs', 1.0]]
+        elif c == 'f32':
             x = np.asarray(x, dtype=np.float32)
+            if case['dt_form'] in NEW_DT_FORMS:
+                case['dt_form'] = 'float'
             case['factor'] = None
             case['k_scale'] = int(rng.choice([-3, -1, 1, 2]))
         elif c in ('i64', 'intlist', 'mixedlist'):
@@ -2014,8 +2302,18 @@ def gen_case(rng, idx):
         case['array_level'] = bool(rng.random() < 0.3)
         if rng.random() < 0.2:
             case['layout'] = ['stride', 'reversed', 'readonly'][int(rng.integers(3))]
-    if case['dt_form'] == 'int' and rng.random() < 0.5 and kind in ('generic', 'edge'):
-        dt = float(rng.choice([1.0, 2.0]))
+    if case['dt_form'] in ('int', 'i64', '0dint', 'bool') and rng.random() < 0.5 and kind in ('generic', 'edge', 'shape', 'container', 'tie'):
+        dt = float(rng.choice([1.0, 2.0, 1.0]))
+    if kind in ('generic', 'shape', 'history', 'edge', 'tie') and rng.random() < 0.2:
+        # user-given settings outside the band of the data (item 31): periods of 0, below 2 dt; smoothing frequencies at and above
+        # the Nyquist frequency; 1-4 entries, as list / tuple / array. The duration functions must leave them alone.
+        nyq = 0.5 / float(dt)
+        rt = np.array([0.0, 0.5 * dt, 1.9 * dt, 2.0 * dt, float(rng.uniform(0.1, 2.0)), float(rng.uniform(2.0, 5.0))])
+        sf = np.array([1e-3 * nyq, 0.3 * nyq, nyq, 1.5 * nyq, 4.0 * nyq])
+        rt = np.sort(rng.choice(rt, size=int(rng.integers(1, 5)), replace=False))
+        sf = np.sort(rng.choice(sf, size=int(rng.integers(1, 5)), replace=False))
+        case['settings'] = {'response_times': rt, 'smooth_fa_freqs': sf, 'form': ['list', 'tuple', 'array'][int(rng.integers(3))]}
+        case['observe_obj'] = True
     if rng.random() < 0.25 and not case.get('brac_only'):
         case['fracs'] = case['fracs'] + gen_edge_fracs(rng, x, case['fracs'])
     if case['repeat'] and rng.random() < 0.6:
@@ -2051,7 +2349,8 @@ def _case_digest(case):
             h.append([op['op']] + [op[k] for k in sorted(op) if k != 'op'])
     return core.digest(np.asarray(case['values']), case['dt'], case['fracs'], case['thr_specs'], case.get('measures'),
                        case.get('k_scale'), case.get('factor'), case.get('k_pad'), case.get('container'), case.get('layout'),
-                       case.get('dt_form'), h, case.get('proto'), case.get('other'), case.get('repeat_j'), case.get('repeat_se'))
+                       case.get('dt_form'), h, case.get('proto'), case.get('other'), case.get('repeat_j'), case.get('repeat_se'),
+                       case.get('scalar_forms'), case.get('settings'))
 
 
 EXH_FRACS = [(0.25, 0.75), (0.125, 0.5), (0.5, 0.9375)]
@@ -2070,10 +2369,13 @@ def run_exhaustive(eqsig, ctx):
             nontriv = any(seq)
             n_nt += nontriv
             dtype = [np.int64, float, float, np.int8][idx % 4]
+            if idx % 11 == 0 and all(v in (0, 1) for v in seq):
+                dtype = bool
             case = {'kind': 'exhaustive', 'cls': 'exhaustive', 'values': np.array(seq, dtype=dtype),
                     'dt': 0.5, 'fracs': EXH_FRACS, 'measures': ['cumabs', ['signed', 'overshoot', 'dip'][idx % 3]], 'k_scale': 0, 'factor': None, 'k_pad': 0,
                     'thr_specs': [['abs', 0.0], ['abs', 1.0], ['abs', 2.0]], 'container': 'array', 'form': idx % 4,
-                    'layout': [None, None, 'readonly', 'stride', 'reversed'][idx % 5], 'dt_form': 'float', 'repeat': idx % 7 == 0}
+                    'layout': [None, None, 'readonly', 'stride', 'reversed'][idx % 5], 'repeat': idx % 7 == 0,
+                    'dt_form': ['float', '0d', 'f32', 'float', 'np'][idx % 5], 'scalar_forms': idx % 3 == 0}
             run_case(eqsig, ctx, case)
             if idx % 1500 == 1:
                 ctx.sample({'fn': 'all five functions', 'values': list(seq), 'dt': 0.5, 'fracs': EXH_FRACS, 'thresholds': [0, 1, 2]})
